@@ -150,6 +150,16 @@ theorem C08_exact2_strong (s : State) (h : C03_Strong s) (a : FsPath) (rootE : E
   obtain ⟨_, hwf, hr, _⟩ := C08S_entriesOf_correct s h a rootE snap hent
   exact C08_exact2 snap o rootE hwf hr hdom (fun _ _ => flagsExcl_of_strong s h a rootE snap hent)
 
+/-- the final form (both `contents_first` findings repaired): on every state satisfying the
+    strengthened invariant, for EVERY option combination with `follow = false`, `OrdOk`, `KindOk`
+    (any depth window, kind filter, ordering, `contents_first`, cap) the traversal of what
+    `entriesOf` returns yields exactly the recursive walk -/
+theorem C08_exact3_strong (s : State) (h : C03_Strong s) (a : FsPath) (rootE : Entry) (snap : Snap) (o : Opts)
+    (hent : entriesOf s a = .ok (rootE, snap)) (hdom : Lemmas.WalkCF.ExactDom3 o) :
+    collectEntries snap o rootE = .ok (entriesSpec snap o rootE) := by
+  obtain ⟨_, hwf, hr, _⟩ := C08S_entriesOf_correct s h a rootE snap hent
+  exact C08_exact3 snap o rootE hwf hr hdom
+
 /-- `C08_listing_helpers` without `entriesOf` / `SnapWf` / `SnapOf` hypotheses: `paths`, `dirs`,
     `files` (`maxDepth = some 1`) and `all_*` (`none`) of a real directory `a` succeed and return, in
     lexicographic order and without repetition, exactly the keys strictly below `a` within the depth
@@ -220,6 +230,16 @@ theorem C08F_entries_op2_strong (env : Env) (p : Str) (r : TravReq) (s : State) 
   obtain ⟨_, hwf, hr, _⟩ := C08S_entriesOf_correct s h k rootE snap hent
   exact C08F_entries_op2_partial env p r s k rootE snap habs hent hwf hr hdom
     (fun _ _ => flagsExcl_of_strong s h k rootE snap hent) hfuel
+
+/-- the final form with links followed: every option combination of `ExactDomF3` -/
+theorem C08F_entries_op3_strong (env : Env) (p : Str) (r : TravReq) (s : State) (k : FsPath) (rootE : Entry)
+    (snap : Snap) (h : C03_Strong s) (habs : absM env p s = (.ok k, s))
+    (hent : entriesOf s k = .ok (rootE, snap)) (hdom : Lemmas.WalkCF.ExactDomF3 r.opts)
+    (hfuel : fuelNeed snap r.opts rootE ≤ travFuel snap) :
+    step env s (.entries p r) =
+      (.ok (.trav ((entriesSpecF snap r.opts rootE).1.map (·.path)) (entriesSpecF snap r.opts rootE).2), s) := by
+  obtain ⟨_, hwf, hr, _⟩ := C08S_entriesOf_correct s h k rootE snap hent
+  exact C08F_entries_op3 env p r s k rootE snap habs hent hwf hr hdom hfuel
 
 /-- the same from the existence of the key: `entriesOf` succeeds, and the operation returns the walk -/
 theorem C08F_entries_op_strong' (env : Env) (p : Str) (r : TravReq) (s : State) (k : FsPath) (rootE : Entry)
@@ -328,6 +348,26 @@ theorem C08_exact2_reachable (env₀ : Env) (ops : List Op)
     (hent : entriesOf (run env₀ Memfs.init ops) a = .ok (rootE, snap)) (hdom : Lemmas.WalkCF.ExactDom2 o) :
     collectEntries snap o rootE = .ok (entriesSpec snap o rootE) :=
   C08_exact2_strong _ (C03_strong_reachable env₀ ops hh) a rootE snap o hent hdom
+
+/-- `C08_exact3_strong` on reachable states -/
+theorem C08_exact3_reachable (env₀ : Env) (ops : List Op)
+    (hh : ∀ pre op post, ops = pre ++ op :: post → (step env₀ (run env₀ Memfs.init pre) op).1 ≠ .hang)
+    (a : FsPath) (rootE : Entry) (snap : Snap) (o : Opts)
+    (hent : entriesOf (run env₀ Memfs.init ops) a = .ok (rootE, snap)) (hdom : Lemmas.WalkCF.ExactDom3 o) :
+    collectEntries snap o rootE = .ok (entriesSpec snap o rootE) :=
+  C08_exact3_strong _ (C03_strong_reachable env₀ ops hh) a rootE snap o hent hdom
+
+/-- `C08F_entries_op3_strong` on reachable states -/
+theorem C08F_entries_op3_reachable (env₀ : Env) (ops : List Op)
+    (hh : ∀ pre op post, ops = pre ++ op :: post → (step env₀ (run env₀ Memfs.init pre) op).1 ≠ .hang)
+    (env : Env) (p : Str) (r : TravReq) (k : FsPath) (rootE : Entry) (snap : Snap)
+    (habs : absM env p (run env₀ Memfs.init ops) = (.ok k, run env₀ Memfs.init ops))
+    (hent : entriesOf (run env₀ Memfs.init ops) k = .ok (rootE, snap)) (hdom : Lemmas.WalkCF.ExactDomF3 r.opts)
+    (hfuel : fuelNeed snap r.opts rootE ≤ travFuel snap) :
+    step env (run env₀ Memfs.init ops) (.entries p r) =
+      (.ok (.trav ((entriesSpecF snap r.opts rootE).1.map (·.path)) (entriesSpecF snap r.opts rootE).2),
+        run env₀ Memfs.init ops) :=
+  C08F_entries_op3_strong env p r _ k rootE snap (C03_strong_reachable env₀ ops hh) habs hent hdom hfuel
 
 /-- `C08F_entries_op2_strong` on reachable states -/
 theorem C08F_entries_op2_reachable (env₀ : Env) (ops : List Op)
